@@ -388,3 +388,24 @@ ENSURES(first_argument_shortcut_is_pointwise_sound, (__CPROVER_return_value & 1)
 ENSURES(second_argument_shortcut_is_pointwise_sound, (__CPROVER_return_value & 2) != 0)
 ENSURES(equal_arguments_shortcut_is_pointwise_sound, (__CPROVER_return_value & 4) != 0)
 ;
+
+/* ---- EV* DIVIDE (factored interface): node-level operands are OMEGA_ZERO (the zero function), OMEGA_NORMAL (the constant 1 after factoring) or a stored
+ * node whose function at an arbitrary assignment is the ghost float d (finite, possibly 0) ----------------------------------------------- */
+int lemma_evstar_div_kernel(struct forest *fa, struct forest *fb, struct forest *fc, node_handle a, node_handle b, const struct edge_value *av, const struct edge_value *bv)
+__CPROVER_requires(__CPROVER_is_fresh(fa, sizeof(*fa)) && __CPROVER_is_fresh(fb, sizeof(*fb)) && __CPROVER_is_fresh(fc, sizeof(*fc)))
+__CPROVER_requires(__CPROVER_is_fresh(av, sizeof(*av)) && __CPROVER_is_fresh(bv, sizeof(*bv)) && av->mytype == edge_type__FLOAT && bv->mytype == edge_type__FLOAT)
+__CPROVER_requires(-1e30f < av->ev_float && av->ev_float < 1e30f && -1e30f < bv->ev_float && bv->ev_float < 1e30f)     /* finite, no NaNs */
+__CPROVER_requires((a == OMEGA_NORMAL || a == OMEGA_ZERO) && (b == OMEGA_NORMAL || b == OMEGA_ZERO) && verif_exc == 0)
+__CPROVER_assigns(verif_exc)
+ENSURES(kernel_rejects_zero_divisors_and_only_those, __CPROVER_return_value == 1)
+;
+int lemma_evstar_div_shortcuts_pw(struct forest *fa, struct forest *fb, struct forest *fc, node_handle a, node_handle b, float da, float db)
+__CPROVER_requires(__CPROVER_is_fresh(fa, sizeof(*fa)) && __CPROVER_is_fresh(fb, sizeof(*fb)) && __CPROVER_is_fresh(fc, sizeof(*fc)))
+__CPROVER_requires((a == OMEGA_NORMAL || a == OMEGA_ZERO || a > 0) && (b == OMEGA_NORMAL || b == OMEGA_ZERO || b > 0) && verif_exc == 0)
+__CPROVER_requires(a > 0 || b > 0)        /* two terminals go to the kernel first */
+__CPROVER_requires(da == da && db == db && -1e30f < da && da < 1e30f && -1e30f < db && db < 1e30f)
+__CPROVER_assigns(verif_exc)
+ENSURES(first_argument_shortcut_is_pointwise_sound, (__CPROVER_return_value & 1) != 0)
+ENSURES(second_argument_shortcut_is_pointwise_sound, (__CPROVER_return_value & 2) != 0)
+ENSURES(equal_arguments_shortcut_is_pointwise_sound, (__CPROVER_return_value & 4) != 0)
+;
